@@ -111,7 +111,7 @@ def c03(tier, seed):
         _mc_law(rep, seed, n_random=16, K=3, invariants=inv3, tag="c03")      # more topologies
         _mc_law(rep, seed, n_random=0, K=4, invariants=inv3, tag="c03k4")    # deeper on the hand-made ones
     jobs = []
-    ng = 10 if quick else 64
+    ng = 14 if quick else 64
     from .. import families
     fam = [families.blocking_tie(random.Random(seed * 17 + k)) for k in range(2 if quick else 8)]
     for i, cfg in enumerate(_graphs(seed + 300, ng - len(fam), tie_every=2, handmade=2, max_window=4) + fam):
@@ -163,7 +163,7 @@ def c04(tier, seed):
         _mc_law(rep, seed + 1, n_random=16, K=3, invariants=inv4, tag="c04")
         _mc_law(rep, seed + 1, n_random=0, K=4, invariants=inv4, tag="c04k4")
     jobs = []
-    ng = 10 if quick else 64
+    ng = 14 if quick else 64
     from .. import families
     fam = [families.advance_mixed(random.Random(seed * 13 + k)) for k in range(2 if quick else 6)]
     for i, cfg in enumerate(fam + _graphs(seed + 400, ng - len(fam), heavy=True)):
@@ -420,6 +420,12 @@ def c05(tier, seed):
         for hname, hist in hists:
             runs = [dict(history=hist, sched=dict(seed=seed * 1000 + s * 31 + i, policy=POLICIES[(s + i) % 5])) for s in range(nsch)]
             jobs.append(dict(kind="async", id=f"c05g{i}/{hname}", cfg=cfg, seed=seed + i, gate=True, runs=runs, keep_choices=False, dirty_init=True, timeout=1200))
+        # one-preemption sweep: after every API call the user thread is held back for exactly j scheduling points of the workers, then runs alone:
+        # the next call (in particular stop() directly after run()/step()) begins at every instant of the workers' progress near the boundary
+        if i < (2 if quick else 6):
+            for hname in ("run_stop_twice", "step_stop_twice", "run_then_reset"):
+                runs = [dict(history=C05_HISTORIES[hname], sched=dict(seed=seed * 1000 + j, policy="sweep", hold=j)) for j in range(0, 36 if quick else 72)]
+                jobs.append(dict(kind="async", id=f"c05g{i}/sweep_{hname}", cfg=cfg, seed=seed + i, gate=True, runs=runs, keep_choices=False, timeout=1500))
         # free-running threads on the riskiest histories (watchdog expiry alone is inconclusive)
         jobs.append(dict(kind="async", id=f"c05g{i}/free", cfg=cfg, seed=seed + i, gate=False, call_timeout=60, timeout=600,
                          runs=[dict(history=C05_HISTORIES["stop_right_after_start"]), dict(history=C05_HISTORIES["many_short_episodes"])]))
